@@ -20,6 +20,7 @@ func init() {
 			"staking and gov keepers are constructed with the overriding keeper. The numeric equality (pool grows by exactly the amount) is the SDK DecCoins arithmetic and is not decided.",
 		Assumptions: []string{"cosmos-sdk bank SendCoinsFromModuleToModule and DecCoins.Add are correct", "staking/gov/slashing burn only through the bank keeper they were constructed with"},
 		Declined:    []string{"numeric equality of community-pool growth and burned amount", "supply unchanged (follows from send-instead-of-burn, trusted SDK)"},
+		Thorough:    wholeProgramBurnSources,
 	})
 }
 
